@@ -69,6 +69,16 @@ def _bucket_of(exc: BaseException, prefix: str) -> tuple[str, str]:
     return f"{prefix}:exc:{type(exc).__name__}@{where}", f"{type(exc).__name__}: {exc}"[:300]
 
 
+def _find_fail(exc: BaseException) -> BaseException | None:
+    if isinstance(exc, Fail):
+        return exc
+    for sub in getattr(exc, "exceptions", ()) or ():
+        f = _find_fail(sub)
+        if f is not None:
+            return f
+    return None
+
+
 def drive(rep: Reporter, run_once: Callable[[], None], prefix: str, max_buckets: int = 3) -> None:
     """Run a hypothesis test; every new failure bucket is recorded (with the shrunk case the
     test left in rep.holder['case']) and excluded, then the search is repeated."""
@@ -77,10 +87,15 @@ def drive(rep: Reporter, run_once: Callable[[], None], prefix: str, max_buckets:
         try:
             run_once()
             return
-        except hypothesis.errors.HypothesisException:
-            raise
         except BaseException as exc:  # noqa: BLE001
             if isinstance(exc, (KeyboardInterrupt, SystemExit)):
+                raise
+            inner = _find_fail(exc)
+            if inner is not None:
+                if inner is not exc:
+                    rep.part.notes.append("hypothesis reported the failure as flaky on re-execution: " + str(inner)[:120])
+                exc = inner
+            elif isinstance(exc, hypothesis.errors.HypothesisException):
                 raise
             key, msg = _bucket_of(exc, prefix)
             if key in rep.known:
